@@ -95,8 +95,8 @@ func compareWithExtendedDaemonsetSettingOverwrite(pod *corev1.Pod, node *NodeIte
 						}
 						specCopy.Containers[id].Resources.Requests[key] = val
 					}
-
-					break
+					// no break: when the setting names a container twice the pod was created with the last
+					// entry applied (overwriteResourcesFromEdsNode), so every entry is overlaid here, in order
 				}
 			}
 		}
